@@ -285,10 +285,10 @@ PROPS = {
     },
     "C18": {
         "title": "Memory managers never hand out overlapping or corrupted chunks",
-        "rules": [on_program(rules_storage.rule_coalesce), on_program(rules_storage.rule_threshold_first), on_program(rules_sibling.rule_small_hole_threshold)],
+        "rules": [on_program(rules_storage.rule_coalesce), on_program(rules_storage.rule_serve), on_program(rules_storage.rule_threshold_first), on_program(rules_sibling.rule_small_hole_threshold)],
         "explanation": STRUCTURAL + ". C18: hole-bookkeeping clauses of the three hole-based managers (array+grid, original grid, heap). Coalescing protocol of recycleChunk: the freed chunk is tagged as a hole before any neighbour is tested; "
                        "a neighbouring hole leaves the manager's tracked set before `numSlots += getHoleSize(neighbour)` (the heap manager's current hole, which is in neither structure, excepted); the grown hole is re-tagged before it is used; and the final hole "
-                       "enters the tracked set on every path except the array-end give-back. Classification: the large-hole threshold is raised before holes are re-classified against it, and the small-hole threshold is one quantity at every site. "
+                       "enters the tracked set on every path except the array-end give-back. Serving protocol of requestChunk (grid managers): a returned hole was untracked first (or is fresh array space); a surplus is cut off with clearHole at the request size and then handed to recycleChunk. Classification: the large-hole threshold is raised before holes are re-classified against it, and the small-hole threshold is one quantity at every site. "
                        "Each is a necessary condition of 'no overlapping chunk, a chunk at least as large as requested': a neighbour that stays tracked after being absorbed, or a hole classified against a stale threshold, is served without a size check.",
         "assumptions": ["non-overlap and content preservation over arbitrary request/recycle sequences is a heap-shape invariant over run-time addresses and is not decided as such",
                         "the malloc-style and free-list managers have no coalescing and are outside these rules", "the vocabulary of track / untrack functions per manager is a table confirmed by reading (lib/rules_storage.py COALESCE_VOCAB)"],
